@@ -485,8 +485,7 @@ PLANS["C17"] = dict(
         "client's socket down and removes exactly that socket from self.clients, serving at most once and only after successful "
         "authentication; OneShotServer._accept_method serves one client and then closes the server on every exit; "
         "ThreadPoolServer._accept_method: once the pool owns the connection, the socket accept() tracked is tracked no longer, whatever "
-        "socket object the authenticator handed back (when building the connection FAILS the socket is closed but stays in the "
-        "tracking set until the next successful accept: noted, not claimed)",
+        "socket object the authenticator handed back, and a client that could not be taken over leaves no entry either (fix F12)",
         "ASSUMED interface contract: Server._serve_client (builds and serves the connection; its teardown is C11); the registrar's "
         "unregister and the logger are dynamic objects",
         "threads, queues, poll objects, sockets and the authenticator are dynamic objects: each method call is a pair of ghost "
@@ -502,14 +501,16 @@ PLANS["C16"] = dict(
     title="A server keeps serving good clients whatever bad clients do (partial: per-connection isolation and per-client bookkeeping)",
     contracts=ALL_CONTRACTS, specs=ALL_SPECS, table="module",
     targets=[PROTO + "__init__", "rpyc/lib/colls.py::RefCountingColl.__init__", "rpyc/lib/colls.py::WeakValueDict.__init__",
-             SRV + "Server._authenticate_and_serve_client"],
+             SRV + "Server._authenticate_and_serve_client", SRV + "ThreadPoolServer._accept_method"],
     lemmas=[], compositions=[], native_focus=[], design_ref="DESIGN.md section 4, C16",
     assumptions=COMMON_ASSUMPTIONS + [
         "PARTIAL. VERIFIED: Connection.__init__ gives every connection its OWN, newly created and empty table of lent objects, "
         "proxy cache, callback table, class cache, send queue, locks, sequence counter and configuration copy (nothing is shared "
         "with another connection; the caller's config wins over the defaults) - `its own table of exported objects, so state and "
         "references never leak from one client to another`; the per-client wrapper serves a client at most once, only after the "
-        "authenticator (when there is one) accepted exactly its socket, and forgets the socket on every exit",
+        "authenticator (when there is one) accepted exactly its socket, and forgets the socket on every exit; in the thread-pool "
+        "server, where a client is taken over inside the accept thread, no Exception raised while taking a client over escapes "
+        "ThreadPoolServer._accept_method (so a failing client cannot end the accept loop)",
         "what a misbehaving client can SEND is covered elsewhere for every byte string: decoding never crashes (C04 / C05 safety "
         "contracts: any input decodes to a plain value or raises; corrupt compressed data raises), every decoded message is "
         "answered or ends only that one connection (C07 / C08 / C11)",
